@@ -953,6 +953,12 @@ impl Scenario for Ids {
             json!({"max": 2, "ops": ["some:1", "none", "unwind:0", "some:1", "call:2", "drop:1", "none", "call:3", "none", "unwind:2", "unwind:3", "none", "none", "none"]}),
             json!({"max": 2, "ops": ["none", "none", "srvclose:0", "srvclose:1", "some:2", "none", "call:2", "call:3", "none", "srvclose:3", "none", "srvclose:2", "srvclose:5", "none", "none", "none"]}),
             json!({"max": 3, "ops": ["none", "none", "none", "srvclose:1", "close:0", "drop:2", "some:3", "none", "none", "none", "call:3", "call:4", "call:5"]}),
+            // closed by both sides at once ("xclose": the server's own Close of that channel was
+            // already on the wire when the client's arrived; the server's CloseOk follows it in the
+            // same transmission - delivered whole, see build): the id is available again at once,
+            // to the explicit and to the automatic allocation
+            json!({"max": 2, "cross": 2, "ops": ["none", "none", "xclose:1", "some:2", "call:2", "none", "call:0", "close:2", "none", "call:4", "some:2"]}),
+            json!({"max": 2, "cross": 2, "ops": ["none", "none", "xclose:1", "none", "call:2", "none", "close:0", "some:1", "call:4", "close:2", "none", "none"]}),
         ]
     }
     fn bound(&self, tier: &str, _p: &Value) -> usize {
@@ -978,9 +984,17 @@ impl Scenario for Ids {
             }
         }
         let ops: Vec<String> = p["ops"].as_array().unwrap().iter().map(|x| x.as_str().unwrap().to_string()).collect();
+        let mut cfg = EnvConfig::default();
+        if let Some(id) = p["cross"].as_u64() {
+            broker.before_channel_close_ok = vec![chan_close_frame(id as u16, 406, "bye")];
+            // the two frames arrive in one piece: with the CloseOk held back while the id is
+            // opened again this sequence becomes the known finding chclose:crossing-id-reuse,
+            // which C09's own check reports
+            cfg.deliver_cut_limit = 0;
+        }
         Built {
             broker: Box::new(broker),
-            cfg: EnvConfig::default(),
+            cfg,
             root: Box::new(move |ctx: Ctx| {
                 let mut conn = match open(&ctx, ConnectionOptions::default().heartbeat(0).channel_max(max), ConnectionTuning::default()) {
                     Ok(c) => c,
@@ -1132,7 +1146,9 @@ impl Scenario for Ids {
                 }
                 _ => {
                     if let Some(Some(id)) = handed.get(arg as usize).cloned() {
-                        if got != format!("Ok(()) on {}", id) {
+                        // (what Channel::close returns when the closes cross is C09's business)
+                        let crossed = kind == "xclose" && got == format!("Err(\"ServerClosedChannel({},406,bye)\") on {}", id, id);
+                        if got != format!("Ok(()) on {}", id) && !crossed {
                             v.push(("ids:close".into(), format!("op {} {}: {}", i, op, got)));
                             return v;
                         }
